@@ -324,6 +324,8 @@ func (w *world) buildArgs(args [][]interface{}) []*pb.Arg {
 			out = append(out, pb.String(sv(1)))
 		case "sa": // string form of an address spec
 			out = append(out, pb.String(w.addr(sv(1)).String()))
+		case "pid": // governance proposal id "<address of spec>-<n>"
+			out = append(out, pb.String(w.addr(sv(1)).String()+"-"+sv(2)))
 		case "b":
 			out = append(out, pb.Bytes(unhex(sv(1))))
 		case "bs": // bytes of a string
@@ -760,6 +762,7 @@ type history struct {
 		Gas    int64  `json:"gas"`
 		Audit  bool   `json:"audit"`
 		Bal    string `json:"bal"`
+		Proof  string `json:"proof"` // "" / "serial" / "parallel": proof verification grouping
 	} `json:"cfg"`
 	Steps   []step `json:"steps"`
 	Timeout int    `json:"timeout_ms"`
@@ -778,6 +781,13 @@ func runOne(_ []string) error {
 	c, err := hx.NewChain(hx.ChainOpts{NumAdmins: h.Cfg.Admins, GasPrice: h.Cfg.Gas, EnableAudit: h.Cfg.Audit, Balance: h.Cfg.Bal, Quiet: true})
 	if err != nil {
 		return err
+	}
+	if h.Cfg.Proof != "" && h.Cfg.Proof != "serial" {
+		// the executor copies the configuration when it is created: reopen the stack with the new value
+		c.Cfg.Executor.ProofType = h.Cfg.Proof
+		if err := c.Restart(); err != nil {
+			return err
+		}
 	}
 	w := &world{c: c, nonces: map[string]uint64{}}
 	w.buildRev()
